@@ -82,6 +82,7 @@ def generate(rng):
     if rng.random() < 0.25:
         scn['short_writes'] = [rng.choice([0, 1, 3, 100]) for _ in range(rng.randint(1, 4))]
     scn['in_cap'] = rng.choice([4096, 4096, 64])
+    scn['hup_write'] = rng.choice(['ok', 'ok', 'ok', 'eio'])
     return scn
 
 
@@ -97,6 +98,7 @@ def enumerate_scenarios(tier, seed):
                         'child_echo': False, 'logs': [], 'in_cap': 4096, 'exit_gap_us': gap}
                 for n in range(1, (40 if tier == 'quick' else 90)):
                     s = dict(base)
+                    s['hup_write'] = 'eio' if (n + gap) % 2 else 'ok'
                     s['child_out'] = [{'n': n_out, 'dt': 0, 'at': [0, max(1, n - 1)]}]
                     s['child_exit'] = {'at': [0, n]}
                     s['enum'] = [use_poll, n_out, gap, n]
